@@ -5,7 +5,6 @@ package parser
 
 import (
 	"fmt"
-	"strings"
 
 	goerrors "github.com/ajitpratap0/GoSQLX/pkg/errors"
 	"github.com/ajitpratap0/GoSQLX/pkg/models"
@@ -124,7 +123,7 @@ func (p *Parser) parseInsertStatement() (ast.Statement, error) {
 	var onConflict *ast.OnConflict
 	var onDuplicateKey *ast.UpsertClause
 	if p.isType(models.TokenTypeOn) {
-		nextLit := strings.ToUpper(p.peekToken().Literal)
+		nextLit := keywordText(p.peekToken())
 		if nextLit == "CONFLICT" {
 			p.advance() // Consume ON
 			p.advance() // Consume CONFLICT
@@ -137,7 +136,7 @@ func (p *Parser) parseInsertStatement() (ast.Statement, error) {
 			p.advance() // Consume ON
 			p.advance() // Consume DUPLICATE
 			// Expect KEY
-			if strings.ToUpper(p.currentToken.Literal) != "KEY" && !p.isType(models.TokenTypeKey) {
+			if keywordText(p.currentToken) != "KEY" && !p.isType(models.TokenTypeKey) {
 				return nil, p.expectedError("KEY")
 			}
 			p.advance() // Consume KEY
@@ -675,7 +674,7 @@ func (p *Parser) parseOnConflictClause() (*ast.OnConflict, error) {
 		}
 		p.advance() // Consume )
 		onConflict.Target = targets
-	} else if p.isType(models.TokenTypeOn) && strings.EqualFold(p.peekToken().Literal, "CONSTRAINT") {
+	} else if p.isType(models.TokenTypeOn) && keywordText(p.peekToken()) == "CONSTRAINT" {
 		// ON CONSTRAINT constraint_name
 		p.advance() // Consume ON
 		p.advance() // Consume CONSTRAINT
